@@ -13,10 +13,11 @@ out=$(./check $chk quick 2>&1); rc=$?
 cd /repo && git checkout -- . 
 echo "$out" | grep -E "^\[|VIOLATION|class=" | head -6
 echo "revert_$d $chk exit=$rc"
-python3 - "$d" "$chk" "$rc" "$c" <<PY
+echo "$out" | grep -E "class=" | head -3 > /tmp/revert_detail.txt
+python3 - "$d" "$chk" "$rc" "$c" <<'PY'
 import json,sys
 d,chk,rc,c=sys.argv[1:]
-out='''$(echo "$out" | grep -E "class=" | head -3 | sed "s/'''/ /g")'''
+out=open('/tmp/revert_detail.txt').read()
 json.dump({"id":f"revert_{d}","breaks_property":chk,"source":f"reverse of fix commit {c} (the original defect {d} of the pinned tree)",
  "needs_to_manifest":"see known_findings.json entry "+d,"what_i_ran":[f"git show {c} -- src | git -C /repo apply -R; ./check {chk} quick; git -C /repo checkout -- ."],
  "checks":{chk:{"exit":int(rc),"detected":int(rc)==1,"detail":out.strip().splitlines()[:3],"tier":"quick"}}},open(f"/verif/seeded/revert_{d}/meta.json","w"),indent=1)
